@@ -256,8 +256,8 @@ example : f12Occurs exCfg exFaults = false := by decide +kernel
     (not processed) and one that reaches a member that is already stopping -/
 example : noNonKafkaEscape (exFaults ++ [.metaDone (.err .nonKafka)]) = false ∧
     f12Occurs exCfg (exFaults ++ [.metaDone (.err .nonKafka)]) = false := by decide +kernel
-example : f12Occurs exCfg [.start, .coordDone .ok, .metaDone .ok, .joinDone (.ok 1 1 false 0), .syncDone (.ok [(0, [0])]),
-    .consumerErr 0 .rebalanceInProgress, .advance 1, .fire 1 none, .stop, .coordDone (.err .nonKafka)] = false := by decide +kernel
+example : f12Occurs exCfg [.start, .coordDone .ok, .metaDone .ok, .joinDone (.ok 1 1 false 0), .syncDone (.ok []), .advance 5, .fire 0 none,
+    .hbDone (.err .rebalanceInProgress), .advance 1, .fire 2 none, .stop, .coordDone (.err .nonKafka)] = false := by decide +kernel
 /-- … and it is true of the counterexample's history -/
 example : f12Occurs exCfg [.start, .coordDone (.err .nonKafka)] = true := by decide +kernel
 example : ((final exCfg exFaults).timers.map fun t => (t.id, t.kind)) = [(2, .rejoin)] := by decide +kernel
